@@ -228,3 +228,8 @@ fn find_best_bin(data: &[Complex]) -> Option<usize> {
     }
     None
 }
+
+#[cfg(rustradio_verif)]
+pub mod verif_access {
+    include!(concat!(env!("RUSTRADIO_VERIF_DIR"), "/access/wpcr.rs"));
+}
